@@ -3,6 +3,7 @@ M4-clients (requested >= consumed), M5 (line-caps typestate)."""
 from ..build import AnalysisBroken
 from ..core import RuleResult
 from ..flow import Flow, BV, TRUE, FALSE, NBITS, var_key
+from ..flow import ASSIGN_OPS
 from ..lic import Lic, Axioms, NoAxioms, is_scalar_t, d_or, d_and, DECL, DECL_TRUE
 from . import mask as M
 
@@ -822,3 +823,93 @@ def _m7b_function(ctx, f, fl, res):
                                      'outputs were requested' % (name, f.src_text(n['cond'])[:60].strip(), n['l'],
                                                                  f.loc(x).rsplit('/', 1)[-1]))
     return nchecked
+
+
+# ------------------------------------------------------------------ M9: mask-selected values
+M9_ALLOWED = {'LONG_UNROLL': {'lon2'}}      # the outputs a modifier bit is documented to affect
+
+
+def rule_M9(ctx, classes=None):
+    """a value selected by a mask bit (`outmask & LONG_UNROLL ? a : b`) may flow only into the outputs that bit is
+    documented to modify; anywhere else it makes one output depend on a request for another."""
+    res = RuleResult('M9', 'mask-selected values: a value chosen by `mask & BIT ? a : b` reaches only the outputs that BIT is '
+                           'documented to modify (LONG_UNROLL: lon2), so no other output depends on that bit')
+    lc = get_licctx(ctx)
+    classes = classes or [NS + c for c in ('Geodesic', 'GeodesicLine', 'GeodesicExact', 'GeodesicLineExact', 'Rhumb', 'RhumbLine')]
+    nsel = 0
+    nfun = 0
+    for cls in classes:
+        ev = ctx.prog.enum_values(cls)
+        bitname = {}
+        for nm, v in ev.items():
+            o = v & 0xFF80
+            if o and (o & (o - 1)) == 0:
+                bitname.setdefault(o.bit_length() - 1, nm)
+        for f in sorted(ctx.lib_fns(), key=lambda x: (x.file, x.line)):
+            if f.cls != cls or not f.cfg or not any(p['name'] in ('outmask',) for p in f.params):
+                continue
+            nfun += 1
+            fl = lc.flow(f, None)
+            lic0 = Lic.__new__(Lic)
+            lic0.fn, lic0.fl = f, fl
+            outs = {p['d']: p['name'] for p in f.params if p['pk'] in ('r', 'p')}
+            # selections
+            sel = {}          # node id -> set of bit numbers
+            for i, n in f.all_nodes():
+                if n['k'] != 'ConditionalOperator':
+                    continue
+                pure, has_and = Lic._pure_mask_cond(lic0, n['cond'], 0)
+                if not (pure and has_and):
+                    continue
+                pos, neg = fl.cond2(n['cond'], fl.env_at(n['cond']))
+                if pos is None:
+                    continue
+                bits = {int(l[0].rsplit(':', 1)[1]) for c in pos for l in c if l[0].startswith('b:') and l[1]}
+                if bits:
+                    sel[i] = bits
+                    nsel += 1
+            if not sel:
+                continue
+            # variable taint in lexical order
+            taint = {}        # decl id -> (bits, line)
+            events = []
+            for i, n in f.all_nodes():
+                if n['k'] == 'DeclStmt':
+                    for d in n['decls']:
+                        if d.get('init', -1) >= 0:
+                            events.append((n['l'], n.get('c', 0), 'def', d['d'], d['init'], i))
+                elif n['k'] in ('BinaryOperator', 'CompoundAssignOperator') and n.get('op') in ASSIGN_OPS:
+                    ln = f.nodes[f.strip(n['ch'][0])]
+                    if ln['k'] == 'DeclRefExpr':
+                        events.append((n['l'], n.get('c', 0), 'def', ln['d'], n['ch'][1], i))
+            events.sort()
+            for l, c, kind, d, rhs, at in events:
+                bits = set()
+                for j in f.walk(rhs):
+                    if j in sel:
+                        bits |= sel[j]
+                    jn = f.nodes[j]
+                    if jn['k'] == 'DeclRefExpr' and jn.get('d') in taint and jn.get('d') != d:
+                        bits |= taint[jn['d']]
+                    if jn['k'] == 'DeclRefExpr' and jn.get('d') == d and d in taint and f.nodes[at].get('op') != '=':
+                        bits |= taint[d]
+                    if jn['k'] == 'DeclRefExpr' and jn.get('d') == d and d in taint and f.nodes[at].get('op') == '=' and j != f.strip(f.nodes[at]['ch'][0]):
+                        bits |= taint[d]
+                if d in outs:
+                    name = outs[d]
+                    for b in sorted(bits):
+                        bn = bitname.get(b, 'bit %d' % b)
+                        ok = name in M9_ALLOWED.get(bn, set())
+                        res.ob(ok, {'fn': f.q, 'output': name, 'selected_by': bn, 'at': f.loc(at)} if not ok else None)
+                        if not ok:
+                            res.fail(f.q, '%s<-%s' % (name, bn), f.loc(at),
+                                     'output %s is computed from a value that was selected by `mask & %s ? ... : ...`: it differs '
+                                     'according to a bit that only %s may depend on'
+                                     % (name, bn, ', '.join(sorted(M9_ALLOWED.get(bn, {'(nothing)'})))))
+                    continue
+                if bits:
+                    taint[d] = bits
+                elif f.nodes[at]['k'] == 'DeclStmt' or f.nodes[at].get('op') == '=':
+                    taint.pop(d, None)
+    res.analysed.update({'gated_functions': nfun, 'mask_selections': nsel})
+    return res, nsel
